@@ -33,7 +33,10 @@ def plan(tier, seed):
         for t in TREES:
             parts = 4 if k == 'moveaxis' else 1
             cases += [{'op': k, 'leafs': t, 'part': [p, parts]} for p in range(parts)]
-    return [{'name': 'grid', 'target': TARGET, 'x64': False, 'cases': cases, 'chunk': 1}]
+    pair_trees = [[[2, 3, 2], [2, 3, 2, 2]], [[2, 3], [2, 3, 2]], [[2, 2], [2, 2, 2]]] + ([[[3, 2, 2], [2, 2]], [[2, 1, 3], [2, 3, 1, 2]]] if tier == 'thorough' else [])
+    pairs = [{'pairs': t, 'part': [p, 8]} for t in pair_trees for p in range(8)]
+    return [{'name': 'grid', 'target': TARGET, 'x64': False, 'cases': cases, 'chunk': 1},
+            {'name': 'pairs', 'target': TARGET, 'x64': False, 'cases': pairs, 'chunk': 1}]
 
 
 def divisors_shapes(size, maxlen=3):
@@ -150,6 +153,42 @@ def run(phase, cases, ctx):
             violations.append({'kind': 'library-raises', 'case': one, 'detail': f'{err}\n{err.tb}'})
 
     for case in cases:
+        if 'pairs' in case:
+            # every ordered pair of single-axis move-axis operators (all spellings in [-rmin, rmin)) on a two-leaf pytree whose
+            # leaves have different ranks: (A @ B).reduce() must denote A after B, whatever the spellings
+            leafs = case['pairs']
+            st = struct(leafs)
+            rmin = min(len(l) for l in leafs)
+            axes = list(range(-rmin, rmin))
+            xs = [data(l, 3 + 5 * i) for i, l in enumerate(leafs)]
+            p, parts = case['part']
+            k = 0
+            for s1, d1, s2, d2 in itertools.product(axes, repeat=4):
+                k += 1
+                if k % parts != p:
+                    continue
+                counters['pair_products'] += 1
+                one = dict(case, args=[s1, d1, s2, d2])
+                if 'args' in case and case['args'] != [s1, d1, s2, d2]:
+                    continue
+                try:
+                    B = MoveAxisOperator(s2, d2, in_structure=st)
+                    A = MoveAxisOperator(s1, d1, in_structure=B.out_structure())
+                    want = [np.moveaxis(np.moveaxis(x, s2, d2), s1, d1) for x in xs]
+                    red = CompositionOperator([A, B]).reduce()
+                    got = unpack(red.mv(pack(xs)), len(leafs))
+                    for g, w in zip(got, want):
+                        if g.shape != w.shape or not np.array_equal(g, w):
+                            violations.append({'kind': 'moveaxis-pair-reduced-wrongly', 'case': one,
+                                               'detail': f'MoveAxis({s1},{d1}) @ MoveAxis({s2},{d2}) on leaf shapes {leafs} reduces to {type(red).__name__}, which maps a leaf to shape {g.shape} {g.ravel()[:6]} instead of {w.shape} {w.ravel()[:6]}'})
+                            break
+                    if isinstance(red, IdentityOperator):
+                        counters['pair_products_collapsed'] += 1
+                    nontrivial.add(json.dumps(one))
+                except Exception as e:  # noqa: BLE001
+                    err = P.LibError('moveaxis pair', e)
+                    violations.append({'kind': 'library-raises', 'case': one, 'detail': f'{err}\n{err.tb}'})
+            continue
         leafs = case['leafs']
         st = struct(leafs)
         rmin = min(len(l) for l in leafs)
@@ -215,10 +254,11 @@ def run(phase, cases, ctx):
 
 def finalize(results, tier, seed):
     r = results['grid']
-    c = r['counters']
-    cov = {'evaluations': c['constructions'], 'distinct_nontrivial': len(r['nontrivial']), 'samples': r['samples'][:3], 'exhaustive': True,
+    c = r['counters'] + results['pairs']['counters']
+    r['nontrivial'] |= results['pairs']['nontrivial']
+    cov = {'evaluations': c['constructions'] + c['pair_products'], 'distinct_nontrivial': len(r['nontrivial']), 'samples': r['samples'][:3], 'exhaustive': True,
            'legal': c['legal'], 'rejected': c['rejected'], 'inverse_pairs_collapsed': c['inverse_pairs_collapsed'],
-           'inverse_pairs_not_collapsed': c['inverse_pairs_not_collapsed'],
+           'inverse_pairs_not_collapsed': c['inverse_pairs_not_collapsed'], 'moveaxis_pair_products': c['pair_products'], 'moveaxis_pair_products_collapsed': c['pair_products_collapsed'],
            'rule': 'one evaluation = one constructor call (operator x leaf shape(s) x argument tuple); non-trivial = legal, so that the action, '
                    'the transpose, reduce() and the inverse pair were all compared with numpy'}
     return {'coverage': cov, 'violations': [], 'assumptions': ['numpy.moveaxis / reshape are the specification named by the property']}
